@@ -195,7 +195,7 @@ DecodeClauses(e) ==
   (* (judged on what C18 is about: the message decodes and every prefixed field comes back with *)
   (* the number of bytes / elements that was encoded; other differences are C01's)            *)
   (IF P("C18") /\ hd.t = T /\ Canonical(T, hd.v)
-   THEN IF e.res = "ok" /\ PrefLens(T, e.vpost) = PrefLens(T, hd.vp) THEN {} ELSE {<<"C18.at-limit-roundtrip", "none">>}
+   THEN IF (e.res = "ok" /\ PrefLens(T, e.vpost) = PrefLens(T, hd.vp)) \/ e.res \notin {"ok", "err"} THEN {} ELSE {<<"C18.at-limit-roundtrip", "none">>}
    ELSE {})
   \cup
   (* C09: a message or an error *)
@@ -274,7 +274,7 @@ PrimClauses(e) ==
        IN (IF P("C13") /\ fn \in FixedFns /\ R.ok /\ ~agree
            THEN {<<"C13.read", IF PadIsHigh(a) THEN "Trim_RuneCutset" ELSE "none">>} ELSE {})
           \cup (IF P("C03") /\ fn \in IntOnlyFns /\ R.ok /\ ~agree THEN {<<"C03.primitive-read", "none">>} ELSE {})
-          \cup (IF P("C18") /\ R.ok /\ e.tag = "read-back" /\ (e.res # "ok" \/ Len(e.ret) # Len(R.ret))
+          \cup (IF P("C18") /\ R.ok /\ e.tag = "read-back" /\ (e.res = "err" \/ (e.res = "ok" /\ Len(e.ret) # Len(R.ret)))
                  THEN {<<"C18.read-back", "none">>} ELSE {})
           \cup (IF P("C11") /\ ~R.ok /\ R.why = "short" /\ e.res = "ok" THEN {<<"C11.primitive-short-read", "none">>} ELSE {})
           \cup (IF P("C09") /\ e.res \notin {"ok", "err"}
